@@ -13,6 +13,11 @@ def tasks(tier):
         for k, np_ in ((2, False), (3, True)):
             T.append(('sx.tasks', 'run_instance', ('sx.fxp', 'convert', dict(src=src, dst=dst), dict(k=k, no_prss=np_), 'mpyc.runtime.Runtime._convert',
                                                    f'{src}->{dst}, k={k}; all source values that fit the target')))
+    # m-party concrete runs of the conversion program, EVERY configuration up to 7 parties in both tiers (cheap; the mask bound of _convert depends on
+    # comb(m, t): only (7, 3) with PRSS separates comb(m, t) from t+1 by more than the head room of the field)
+    from props import _mp
+    from sx import mpinst
+    T += _mp.concrete(tier, ['convert_ops'], mpinst.CONFIGS_THOROUGH)
     try:
         from contracts import runtime_native as RN
         T += RN.tasks(tier, 'C06')
